@@ -1181,6 +1181,51 @@ def check_rclassdispatch(ctx, prog):
                   key="R-CLASS:anchor"):
         return
     variants = [v["name"] for v in adt["variants"]]
+    # out-parameter style: the classes are accumulated into a `&mut RangeMap` handed down the recursion
+    # (`add(re, &mut map)`), instead of being returned and combined. "Which operation on which operand"
+    # then is a statement about the order of effects on one shared map, which this rule's per-arm reading
+    # of returned values does not cover: not applicable, the witnesses (TV on the classes, built-ins and
+    # precedence families) decide the definitions they contain.
+    raw = lex.raw_body("regex_to_nfa::regex_to_range_map") if hasattr(lex, "raw_body") else None
+    for cb in ([raw] if raw is not None else []):
+        for bb in cb["mir"]["blocks"]:
+            t = bb["term"]
+            if bb["cleanup"] or t["k"] != "call":
+                continue
+            c = norm_path(t.get("resp") or t["f"].get("path")) or ""
+            hb = lex.raw_body(c) if c.startswith("regex_to_nfa::") and c != "regex_to_nfa::regex_to_range_map" else None
+            if hb is None:
+                continue
+            sig = hb.get("sig_in") or []
+            rec = any((norm_path(b2["term"].get("resp") or b2["term"]["f"].get("path")) or "") == c
+                      for b2 in hb["mir"]["blocks"] if b2["term"]["k"] == "call" and not b2["cleanup"])
+            if rec and any(str(x).startswith("&mut") and "RangeMap" in str(x) for x in sig):
+                ctx.notes.append("R-CLASS: not applicable - regex_to_range_map accumulates classes into an "
+                                 "out-parameter (%s); class expressions are decided on witnesses only" % c)
+                ctx.ob("R-CLASS", "regex_to_range_map computes classes by accumulation into an out-parameter: the "
+                       "per-variant rule is not applicable (recorded, not a violation)", True,
+                       key="R-CLASS:not-applicable")
+                # what remains decidable per arm: the forms that are not classes are rejected
+                hbody = lex.body(c) or hb
+                hsym = Sym(hbody, {1: "bindings", 2: "re", 3: "map"}, crate=lex)
+                hentries, hprivate = arms_of(hbody, 2, hsym)
+                handled = 0
+                if hentries is not None:
+                    for idx, vname in enumerate(variants):
+                        if idx not in hentries:
+                            continue
+                        handled += 1
+                        if vname not in ("String", "ZeroOrMore", "OneOrMore", "ZeroOrOne", "Concat", "EndOfInput"):
+                            continue
+                        asym = Sym(hbody, {1: "bindings", 2: "re", 3: "map"}, crate=lex, allowed=set(hprivate[idx]))
+                        acalls = arm_calls(asym, hprivate[idx])
+                        diverges = any(c_.endswith("panic_fmt") or "panic" in c_ for bi, c_, a, t_ in acalls)
+                        muts = [c_ for bi, c_, a, t_ in acalls if c_.startswith("range_map::RangeMap::")]
+                        ctx.ob("R-CLASS", "%s is rejected inside a class expression (the arm panics and adds nothing)"
+                               % vname, diverges and not muts, key="R-CLASS:%s:reject" % vname,
+                               where=hbody["mir"]["blocks"][hentries[idx]].get("span"))
+                ctx.floor("variants of ast::Regex handled by regex_to_range_map", handled, 13)
+                return
     sym = Sym(body, ROLES_R2RM, crate=lex)
     entries, private = arms_of(body, 2, sym)
     if not ctx.ob("R-CLASS", "regex_to_range_map dispatches on the variant of `re`", entries is not None,
